@@ -32,7 +32,7 @@ Reset ==
   /\ carried' = [a \in Addrs |-> {}] /\ owed' = {}
   /\ up' = [a \in Addrs |-> TRUE] /\ snap' = {}
   /\ succ' = [o \in Objs |-> 0] /\ fail' = [o \in Objs |-> 0]
-  /\ idx' = 0 /\ econns' = {} /\ nconn' = 0 /\ nround' = 0 /\ ntog' = 0
+  /\ idx' = 0 /\ econns' = {} /\ nconn' = 0 /\ nround' = 0 /\ ntog' = 0 /\ nhalf' = 0
   /\ elast' = NoE
 
 SeqSet(s) == {s[i] : i \in 1..Len(s)}
@@ -57,6 +57,7 @@ TraceNext ==
        \/ e.op = "ReplaceAll" /\ EReplace([a \in Addrs |-> e.f[a]]) /\ Note(OpVerdict(e))
        \/ e.op = "Toggle" /\ Toggle(e.a) /\ bad' = bad
        \/ e.op = "Round" /\ Round /\ bad' = bad
+       \/ e.op = "HalfClose" /\ (\E c \in econns : c.id = e.id /\ HalfClose(c, e.side)) /\ bad' = bad
        \/ /\ e.op = "Conn" /\ Conn
           /\ IF elast'.chosen = NoObj THEN e.backend = 0 ELSE oaddr[elast'.chosen] = e.backend
           /\ Note(ConnVerdict(e))
